@@ -118,6 +118,9 @@ def run(pid, cfg, tier, seed, replay, problems, obligations, rundir, t0, G):
     log = []
     bins = build_bins(G, problems, log)
     ncases = 150 if tier == 'quick' else 2500
+    ch = subprocess.run([sys.executable, os.path.join(G['VERIF'], 'tools', 'srcscan.py'), 'changed', G['REPO']], stdout=subprocess.PIPE, text=True).stdout
+    changed_files = ch.split()[1:] if ch.startswith('CHANGED') else []
+    if changed_files and tier == 'quick': ncases = 450     # changed sources: larger budget
     rng = random.Random(seed)
     cases = [gen_case(rng, k) for k in range(ncases)]
     if replay:
@@ -183,7 +186,7 @@ def run(pid, cfg, tier, seed, replay, problems, obligations, rundir, t0, G):
             'rule': 'random invocations: 1-5 patterns over a small pool incl. multi-byte characters via -p or -f (with blank pattern lines sprinkled in), stdin or 1-2 files, -n/--line-number, -h/--no-filename, -f and -p together, --color=never|always|auto (TERM=dumb / TERM=xterm) or omitted, each run on the dev and the release binary; distinct = distinct (patterns, inputs, flags); non-trivial = at least two patterns and at least one printed line',
             'samples': [{k: c.get(k) for k in ('pats', 'inputs', 'cmode', 'n', 'h', 'files', 'both', 'long_flags')} for c in cases[:3]],
             'colour_modes': {m: sum(1 for c in cases if c.get('cmode') == m) for m in ('never', 'always', 'omitted', 'auto-dumb', 'auto-xterm')},
-            'binaries': sorted(bins.keys()), 'build_log': log,
+            'binaries': sorted(bins.keys()), 'build_log': log, 'source_files_changed': changed_files,
         },
         'assumptions': ['inputs are LF-terminated UTF-8 without ESC bytes', 'line numbers are 0-based as the code prints them (the property does not fix the base)'],
         'wall_s': round(time.time() - t0, 2), 'violations': len(violations),
